@@ -5,7 +5,9 @@ ENTRY = dict(
          "fingerprinted copies (Fingerprinter on the class's own ClientHello, re-applied as HelloCustom), custom specs (hybrid-only, hybrid + "
          "P-256, five shares, P-521/P-384/X25519, Kyber draft + P-384, GREASE + two shares, both hybrids, a share with caller-supplied Data) and three QUIC "
          "specs. Every non-GREASE wire share of every class except that last custom one must be fresh and backed whatever the spec object carries; "
-         "fingerprinted copies additionally: CImport (captured key_share entries vs the spec the Fingerprinter built) and no share equal to the capture's. "
+         "re-preset sequences on one UConn (ApplyPreset two / three times with the same spec, another spec first: Chrome_133, five shares, hybrid-only, "
+         "a fingerprinted spec twice; CReads over the draws of the last ApplyPreset); every retained private key must be the private half of a share "
+         "on the wire (stale-key/<class>); fingerprinted copies additionally: CImport (captured key_share entries vs the spec the Fingerprinter built) and no share equal to the capture's. "
          "Per class: one build under a recording deterministic Config.Rand (wire shares, session id, retained keys, order of reads: CShape / "
          "CShapeQ / CReads); 10 (quick) / 200 (thorough; 50 for randomized and fingerprinted classes) builds under crypto/rand checking sizes, "
          "key backing and pairwise-distinct randoms / session ids / shares; one loopback handshake per generated share with the server's "
